@@ -2,6 +2,7 @@
 import json
 import os
 import vlib
+import tower_common
 
 TARGETS = ["theories/Properties/C19.v"]
 TRUSTED = [
@@ -102,11 +103,18 @@ def run(ctx):
             case = f.split("case=", 1)[1] if "case=" in f else f
             ctx.add_violation("TxIndex look-up differs from the list-of-blocks window: " + f.split(" case=")[0],
                               {"kind": "txindex", "case": case.strip(), "detail": f.split(" case=")[0]}, classify(f))
+    # the two instances the tower keeps (Watcher: locator -> transaction, Responder: txid -> block hash) are fed by the chain listeners:
+    # what the tower looks up after disconnections must be what the model, whose indexes ARE the last-N-blocks window, looks up
+    if ok_h and ok_o:
+        tower_common.tower_probe(ctx, "C19", {"C04"}, {"rpc", "trks"},
+                                 why="look-ups of the tower's own index instances during histories with disconnections")
     return ctx.finish("proof")
 
 
 def replay(ctx, path):
     obj = json.load(open(path))["replay"]
+    if obj.get("kind") == "tower-history":
+        return tower_common.replay(ctx, path)
     if obj.get("kind") != "txindex":
         print(json.dumps(obj, indent=1))
         return 1
